@@ -255,6 +255,11 @@ class PanicEx(Exception):
         self.what = what
 
 
+def _walk_expr(e):
+    from .walk import walk
+    return walk(e)
+
+
 class PathCtx:
     """one decision-tree path: guards are answered from the script, then by default True"""
 
@@ -592,6 +597,9 @@ class Interp:
             return old_v
         if path.endswith("MaybeUninit::<T>::new") or path.endswith("MaybeUninit::new"):
             return args[0]
+        if name == "write" and "MaybeUninit" in path and len(args) == 2 and isinstance(args[0], Ref):
+            args[0].set(args[1])
+            return args[0]
         if name in ("any", "all") and isinstance(x, IterV) and len(args) == 2:
             res = (name == "all")
             for item in x.items:
@@ -648,12 +656,86 @@ class Interp:
             if name in ("all", "none", "any"):
                 # SimdBool = bool
                 return BoolV(x.b if name != "none" else not x.b)
+        if isinstance(x, Tup) and name == "map" and len(args) == 2 and "array" in path:
+            return Tup([self.call_closure(unref(args[1]), [i], e) for i in x.vs])
+        if isinstance(x, Tup) and name == "each_ref" and len(args) == 1 and "array" in path:
+            return x
+        if isinstance(x, Tup) and name in ("iter", "into_iter") and len(args) == 1 and ("slice" in path or "array" in path or "IntoIterator" in path):
+            return IterV(list(x.vs))
         if isinstance(x, IterV):
             if name == "fold" and len(args) == 3:
                 acc = args[1]
                 for item in x.items:
                     acc = self.call_closure(unref(args[2]), [acc, item], e)
                 return acc
+            if name in ("copied", "cloned", "into_iter", "iter", "by_ref") and len(args) == 1:
+                return IterV([deep(i) for i in x.items]) if name in ("copied", "cloned") else x
+            if name == "map" and len(args) == 2:
+                return IterV([self.call_closure(unref(args[1]), [i], e) for i in x.items])
+            if name in ("flat_map", "flatten") and len(args) in (1, 2):
+                out = []
+                for i in x.items:
+                    r = unref(self.call_closure(unref(args[1]), [i], e)) if name == "flat_map" else unref(i)
+                    if isinstance(r, IterV):
+                        out += r.items
+                    elif isinstance(r, Opt):
+                        out += [r.v] if r.some else []
+                    elif isinstance(r, Tup):
+                        out += r.vs
+                    else:
+                        self.unsupported("%s item %r" % (name, r), e)
+                return IterV(out)
+            if name == "enumerate" and len(args) == 1:
+                return IterV([Tup([Sc(self.dom.const(k)), i]) for k, i in enumerate(x.items)])
+            if name == "rev" and len(args) == 1:
+                return IterV(list(reversed(x.items)))
+            if name == "zip" and len(args) == 2 and isinstance(unref(args[1]), (IterV, Tup)):
+                o = unref(args[1])
+                oi = o.items if isinstance(o, IterV) else o.vs
+                return IterV([Tup([a_, b_]) for a_, b_ in zip(x.items, oi)])
+            if name == "for_each" and len(args) == 2:
+                for item in x.items:
+                    self.call_closure(unref(args[1]), [item], e)
+                return UNIT
+            if name == "try_for_each" and len(args) == 2:
+                for item in x.items:
+                    r = unref(self.call_closure(unref(args[1]), [item], e))
+                    if isinstance(r, Res):
+                        if not r.ok:
+                            return r
+                    elif isinstance(r, Opt):
+                        if not r.some:
+                            return r
+                    else:
+                        self.unsupported("try_for_each closure result", e)
+                last = None
+                return Res(True, UNIT)
+            if name in ("sum", "product") and len(args) == 1 and not (x.items and all(isinstance(unref(i), Sc) for i in x.items)):
+                # Iterator::sum::<S>() is S::sum(iter): dispatch to the crate's own `impl Sum for S` (owned items)
+                adt = None
+                if x.items and isinstance(unref(x.items[0]), Rec):
+                    adt = unref(x.items[0]).adt
+                elif e is not None and "t" in e:
+                    adt = self.F.adt_name(e["t"])
+                if adt:
+                    for imp in self.F.impls_of("Sum" if name == "sum" else "Product", adt):
+                        targs = imp.get("trait_args", [])
+                        rt = self.F.ty(targs[1]) if len(targs) > 1 and isinstance(targs[1], int) else None
+                        if rt is not None and rt["k"] == "ref":
+                            continue
+                        b = self.F.impl_item(imp, name)
+                        if b is not None:
+                            return self.call_body(b, [x], e)
+                self.unsupported("iterator method %s over %r" % (name, adt), e)
+            if name in ("sum", "product") and len(args) == 1 and x.items and all(isinstance(unref(i), Sc) for i in x.items):
+                acc = unref(x.items[0]).v
+                for i in x.items[1:]:
+                    acc = (self.dom.add if name == "sum" else self.dom.mul)(acc, unref(i).v)
+                return Sc(acc)
+            if name == "count" and len(args) == 1:
+                return Sc(self.dom.const(len(x.items)))
+            if name == "collect" and len(args) == 1:
+                return Tup(list(x.items))
             self.unsupported("iterator method %s" % name, e)
         if isinstance(x, Rec) and x.adt in ("std::Range", "std::RangeInclusive"):
             if name == "contains" and len(a) == 2 and isinstance(a[1], Sc):
@@ -773,6 +855,8 @@ class Interp:
             if x.some and o.some:
                 return Opt(True, Tup([x.v, o.v]))
             return Opt(False)
+        if name in ("iter", "into_iter", "iter_mut") and not rest:
+            return IterV([x.v]) if x.some else IterV([])
         if name == "map_or":
             return self.call_closure(rest[1], [x.v], e) if x.some else rest[0]
         if name == "map_or_else":
@@ -826,6 +910,25 @@ class Interp:
             raise PanicEx("unwrap on Err")
         if name == "ok":
             return Opt(True, x.v) if x.ok else Opt(False)
+        if name == "and_then":
+            if not x.ok:
+                return x
+            r = unref(self.call_closure(rest[0], [x.v], e))
+            if not isinstance(r, Res):
+                self.unsupported("and_then closure result", e)
+            return r
+        if name == "map_err":
+            return x if x.ok else Res(False, self.call_closure(rest[0], [x.v], e))
+        if name == "or_else":
+            return x if x.ok else self.call_closure(rest[0], [x.v], e)
+        if name in ("is_ok", "is_err"):
+            return BoolV(x.ok == (name == "is_ok"))
+        if name == "unwrap_or":
+            return x.v if x.ok else rest[0]
+        if name == "unwrap_or_else":
+            return x.v if x.ok else self.call_closure(rest[0], [x.v], e)
+        if name == "err":
+            return Opt(False) if x.ok else Opt(True, x.v)
         self.unsupported("Result::%s" % name, e)
 
     # ---- matrices (domain A only)
@@ -872,6 +975,10 @@ class Interp:
             if "0" in x.shape:
                 return IterV([])      # a matrix with a zero dimension has no elements
             return IterV([Sc(x.p)])
+        if name == "iter_mut" and not rest:
+            if "0" in x.shape:
+                return IterV([])
+            return IterV([Ref(MatElem(x), 0)])     # one representative element (element-uniform)
         if name in ("get_unchecked", "get_unchecked_mut") and len(rest) == 2:
             if name == "get_unchecked_mut":
                 return Ref(MatElem(x), 0)
@@ -978,8 +1085,16 @@ class Interp:
                 val = deep(v)
             env[p["id"]] = [val]
             return True
+        if k == "slice" and "mid" not in p:
+            u = unref(v)
+            pats = list(p.get("before", [])) + list(p.get("after", []))
+            if not isinstance(u, Tup) or len(u.vs) != len(pats):
+                raise Unsupported("slice pattern on %r" % (u,))
+            return all(self.bind(q, x, env) for q, x in zip(pats, u.vs))
         if k == "tuple":
             u = unref(v)
+            if isinstance(u, Unit) and not p["pats"]:
+                return True      # the pattern `()`
             if not isinstance(u, Tup) or len(u.vs) != len(p["pats"]) or "dotdot" in p:
                 raise Unsupported("tuple pattern on %r" % (u,))
             return all(self.bind(q, x, env) for q, x in zip(p["pats"], u.vs))
@@ -990,6 +1105,9 @@ class Interp:
             if name in ("Some", "Ok", "Err"):
                 byref = isinstance(v, Ref)
                 u = unref(v)
+                if name == "Some" and isinstance(u, OrdV):
+                    # partial_cmp of two (non-NaN) scalars is Some(ordering)
+                    return self.bind(p["pats"][0], OrdInner(u.a, u.b), env)
                 if name == "Some":
                     if not isinstance(u, Opt):
                         raise Unsupported("Some pattern on %r" % (u,))
@@ -1018,10 +1136,14 @@ class Interp:
             u = unref(v)
             if "path" in p:
                 name = p["path"].get("text", "").split("::")[-1]
+                if name == "None" and isinstance(u, OrdV):
+                    return False
                 if name == "None":
                     if not isinstance(u, Opt):
                         raise Unsupported("None pattern on %r" % (u,))
                     return not u.some
+                if name in ("Less", "Equal", "Greater") and isinstance(u, OrdInner):
+                    return self.compare({"Less": "<", "Equal": "==", "Greater": ">"}[name], u.a, u.b).b
                 raise Unsupported("path pattern %s" % name)
             lit = p["lit"]
             if isinstance(u, Sc) and lit["k"] in ("int", "float"):
@@ -1277,6 +1399,14 @@ class Interp:
                 return self.rec_compare(name, op, a, b, c, e)
             if isinstance(a, BoolV) and isinstance(b, BoolV) and op in ("==", "!="):
                 return BoolV((a.b == b.b) == (op == "=="))
+            if op in ("==", "!=") and ((isinstance(a, DimV) and isinstance(b, Sc)) or (isinstance(b, DimV) and isinstance(a, Sc))):
+                # a dimension compared with an integer literal: the same decision as the literal pattern `(1, _)`
+                dm, sc_ = (a, b) if isinstance(a, DimV) else (b, a)
+                cv = self.dom.concrete(sc_.v) if hasattr(self.dom, "concrete") else None
+                if cv is not None and cv == int(cv):
+                    lit = str(int(cv))
+                    r = (lit == "1") if dm.name == "1" else self.decide(("dim", dm.name, lit), "dim %s == %s" % (dm.name, lit))
+                    return BoolV(r == (op == "=="))
             if op in ("==", "!="):
                 r = self.struct_eq(a, b, e)
                 if r is not None:
@@ -1511,6 +1641,12 @@ class Interp:
                 a0 = call["args"][0]
                 if a0["k"] == "path" and a0["res"].get("r") == "local":
                     itv = unref(self.ev(a0, env))
+                elif a0["k"] in ("array", "addr", "mcall", "tup") and not any(
+                        n.get("k") in ("assign", "assignop", "closure") for n in _walk_expr(a0)):
+                    # a literal table (array of tuples, possibly through .iter()/.into_iter()): evaluated once, no effects
+                    itv = unref(self.ev(a0, env))
+                    if isinstance(itv, Tup):
+                        itv = IterV(list(itv.vs))
         except Unsupported:
             itv = None
         if isinstance(itv, IterV):
@@ -1599,6 +1735,13 @@ class IndexPlace:
     def __init__(self, base, idx):
         self.base = base
         self.idx = idx
+
+
+class OrdInner:
+    """the Ordering inside Some(partial_cmp(a, b))"""
+
+    def __init__(self, a, b):
+        self.a, self.b = a, b
 
 
 class OrdV:
